@@ -15,6 +15,7 @@ CONSTANTS
   PadRule = "rfc"
   GuardZeroRec = %(guard)s
   Setups <- %(setups)s
+  MaxSetup = %(maxsetup)d
   EmitCases = %(emit)s
 INVARIANTS Safe Emit
 CHECK_DEADLOCK FALSE
@@ -25,6 +26,7 @@ CONSTANTS
   GuardZeroRec = %(guard)s
   Reserved23 = %(guard)s
   Setups <- %(setups)s
+  MaxSetup = %(maxsetup)d
   EmitCases = %(emit)s
 INVARIANTS Safe Emit
 CHECK_DEADLOCK FALSE
@@ -67,8 +69,8 @@ def flow(ctx, proto, thorough, namplify, measure=True, stride=1):
     name = codec.P[proto]["name"]
     mod = FUZZ_MOD[proto]
     ctx.tlc_must_fail(mod, "asbuilt.cfg", expect="Safe", workers=8,
-                      files={"asbuilt.cfg": FUZZ_CFG[proto] % dict(guard="FALSE", setups="SetupsQ", emit="FALSE")})
-    cfg = FUZZ_CFG[proto] % dict(guard="TRUE", setups="SetupsT" if thorough else "SetupsQ", emit="TRUE")
+                      files={"asbuilt.cfg": FUZZ_CFG[proto] % dict(guard="FALSE", setups="SetupsQ", emit="FALSE", maxsetup=1)})
+    cfg = FUZZ_CFG[proto] % dict(guard="TRUE", setups="SetupsT" if thorough else "SetupsQ", emit="TRUE", maxsetup=2 if thorough else 1)
     r = ctx.tlc_model(mod, "run.cfg", files={"run.cfg": cfg}, want_cases=True, timeout=3000)
     cases = r.cases
     ctx.note("%s: TLC proved the reference collector total on %d boundary histories" % (name, len(cases)))
